@@ -43,6 +43,7 @@ HISTS = {
     "block2": [("N", "block2"), ("N", "scale")],
     "block-indep": [("N", "blocknew")],
     "update": [("N", "new"), ("update", None), ("N", "repeat"), ("T", "new")],
+    "update-adj": [("T", "new"), ("update", None), ("T", "new"), ("T", "new"), ("T", "sum")],
     "cplx-rhs": [("N", "cplx"), ("N", "new")],
     "cplxconst-rhs": [("N", "cplxconst"), ("N", "new")],
     "x0": [("N", "new"), ("N", "newx0"), ("T", "newx0"), ("N", "blocknewx0")],
@@ -71,6 +72,8 @@ def items(tier):
                 if hname == "cplxconst-rhs":
                     continue
                 if hname == "x0" and (mclass != "general" and q or zp and q):
+                    continue
+                if hname == "update-adj" and (mclass != "general" or (q and len(zp) != 1)):
                     continue
                 if hname == "cplx-rhs" and mclass in ("hermitian", "complex-symmetric"):
                     continue
